@@ -5,6 +5,9 @@
      hmac-sha256|hmac-sha1|hmac-md5 b <key> <msg>     HMAC_XXX_Buf                -> ok <digest> -
      pbkdf2 <passwd> <salt> <c> <dkLen>        PBKDF2_SHA256                      -> ok <bytes> -
      xform-sha256|xform-sha1|xform-md5 <state words as bytes, big endian> <block>  one Transform -> ok <state> -
+     resume-sha256|resume-sha1|resume-md5 <state> <c0 hex> <c1 hex> <buf> <part>*
+        context given whole (sha256: count = c0; sha1/md5: count[0] = c0, count[1] = c1), Update per part, Final
+        -> ok <digest>/<64-bit bit count after each Update, 16 hex digits>/... z|nz
    z = every field of the context returned by Final is zero.
    With a "spec" prefix the standard's function is evaluated instead (flag field "-"). *)
 let zf b = if b then "z" else "nz"
@@ -19,6 +22,17 @@ let rec words_of_bytes = function
 let bytes_of_words ws =
   List.concat_map (fun w -> let v = int_of_n w in
     [n_of_int ((v lsr 24) land 255); n_of_int ((v lsr 16) land 255); n_of_int ((v lsr 8) land 255); n_of_int (v land 255)]) ws
+let pad_hex w s = if String.length s >= w then s else String.make (w - String.length s) '0' ^ s
+let resume ctx0 update final is_zero count_str parts =
+  let (c, counts) = List.fold_left (fun (c, acc) p -> let c' = update c (bytes_of_hex p) in (c', acc ^ "/" ^ count_str c'))
+      (ctx0, "") parts in
+  let (dg, c') = final c in
+  print_endline ("ok " ^ hex_of_bytes dg ^ counts ^ " " ^ zf (is_zero c'))
+let spec_resume digest bits parts =
+  let ps = List.map bytes_of_hex parts in
+  let counts = String.concat "" (List.map (fun b -> "/" ^ pad_hex 16 (hex_of_n b)) (md_counts bits ps)) in
+  print_endline ("ok " ^ hex_of_bytes (digest (List.concat ps)) ^ counts ^ " -")
+let join64 hi lo = n_of_hex (pad_hex 8 (hex_of_n hi) ^ pad_hex 8 (hex_of_n lo))
 let () = iter_lines (fun line ->
   match split_ws line with
   | "sha256" :: "s" :: parts -> stream sha256_init sha256_update sha256_final c256_is_zero parts
@@ -43,7 +57,25 @@ let () = iter_lines (fun line ->
   | ["xform-sha256"; st; b] -> out (bytes_of_words (sha256_transform (words_of_bytes (bytes_of_hex st)) (bytes_of_hex b))) "-"
   | ["xform-sha1"; st; b] -> out (bytes_of_words (sha1_transform (words_of_bytes (bytes_of_hex st)) (bytes_of_hex b))) "-"
   | ["xform-md5"; st; b] -> out (bytes_of_words (md5_transform (words_of_bytes (bytes_of_hex st)) (bytes_of_hex b))) "-"
+  | "resume-sha256" :: st :: c0 :: _ :: bf :: parts ->
+    resume { c256_state = words_of_bytes (bytes_of_hex st); c256_count = n_of_hex c0; c256_buf = bytes_of_hex bf }
+      sha256_update sha256_final c256_is_zero (fun c -> pad_hex 16 (hex_of_n c.c256_count)) parts
+  | "resume-sha1" :: st :: c0 :: c1 :: bf :: parts ->
+    resume { c32_state = words_of_bytes (bytes_of_hex st); c32_count0 = n_of_hex c0; c32_count1 = n_of_hex c1; c32_buf = bytes_of_hex bf }
+      sha1_update sha1_final c32_is_zero (fun c -> pad_hex 8 (hex_of_n c.c32_count0) ^ pad_hex 8 (hex_of_n c.c32_count1)) parts
+  | "resume-md5" :: st :: c0 :: c1 :: bf :: parts ->
+    resume { c32_state = words_of_bytes (bytes_of_hex st); c32_count0 = n_of_hex c0; c32_count1 = n_of_hex c1; c32_buf = bytes_of_hex bf }
+      md5_update md5_final c32_is_zero (fun c -> pad_hex 8 (hex_of_n c.c32_count1) ^ pad_hex 8 (hex_of_n c.c32_count0)) parts
   (* ---- the standards' functions ---- *)
+  | "spec" :: "resume-sha256" :: st :: c0 :: _ :: bf :: parts ->
+    let bits = n_of_hex c0 in
+    spec_resume (sHA256_resume_spec (words_of_bytes (bytes_of_hex st)) bits (bytes_of_hex bf)) bits parts
+  | "spec" :: "resume-sha1" :: st :: c0 :: c1 :: bf :: parts ->
+    let bits = join64 (n_of_hex c0) (n_of_hex c1) in
+    spec_resume (sHA1_resume_spec (words_of_bytes (bytes_of_hex st)) bits (bytes_of_hex bf)) bits parts
+  | "spec" :: "resume-md5" :: st :: c0 :: c1 :: bf :: parts ->
+    let bits = join64 (n_of_hex c1) (n_of_hex c0) in
+    spec_resume (mD5_resume_spec (words_of_bytes (bytes_of_hex st)) bits (bytes_of_hex bf)) bits parts
   | "spec" :: "sha256" :: _ :: parts -> out (sHA256_spec (List.concat_map bytes_of_hex parts)) "-"
   | "spec" :: "sha1" :: _ :: parts -> out (sHA1_spec (List.concat_map bytes_of_hex parts)) "-"
   | "spec" :: "md5" :: _ :: parts -> out (mD5_spec (List.concat_map bytes_of_hex parts)) "-"
